@@ -55,6 +55,12 @@ pub struct C10Plan {
     /// send a final distinct frame stamped after every window has closed
     pub flush: bool,
     pub sched: SchedSpec,
+    /// decode1090 process scenario only: damaged lines in the recording,
+    /// (inserted after this many receptions, kind): 0 bytes that are not UTF-8,
+    /// 1 text that is not JSON, 2 a JSON line cut short, 3 an empty line,
+    /// 4 JSON of another shape
+    #[serde(default)]
+    pub junk: Vec<(u32, u8)>,
 }
 
 pub struct C10;
@@ -283,6 +289,7 @@ impl Scenario for C10 {
             rx_crash_after,
             flush: rng.chance(0.8),
             sched: SchedSpec::generate(rng, 4 * n + 16),
+            junk: Vec::new(),
         }
     }
 
@@ -1063,6 +1070,14 @@ impl Scenario for Decode1090Proc {
         if p.window_ms == 0 {
             p.window_ms = 400; // decode1090's default
         }
+        // a recording damaged on disk or in transfer: lines that cannot be read
+        // are skipped, the receptions on the intact lines are still conserved
+        if rng.chance(0.4) {
+            for _ in 0..rng.usize(1, 3) {
+                p.junk.push((rng.below(p.receptions.len() as u64 + 1) as u32, rng.below(5) as u8));
+            }
+            p.junk.sort();
+        }
         p
     }
     fn execute(&self, plan: &C10Plan) -> Outcome<C10Plan> {
@@ -1070,6 +1085,11 @@ impl Scenario for Decode1090Proc {
     }
     fn shrink(&self, p: &C10Plan) -> Vec<C10Plan> {
         let mut out = Vec::new();
+        for j in 0..p.junk.len() {
+            let mut q = p.clone();
+            q.junk.remove(j);
+            out.push(q);
+        }
         let n = p.receptions.len();
         let mut chunk = n / 2;
         while chunk >= 1 {
@@ -1077,6 +1097,13 @@ impl Scenario for Decode1090Proc {
             while i < n {
                 let mut q = p.clone();
                 q.receptions.drain(i..(i + chunk).min(n));
+                for jk in q.junk.iter_mut() {
+                    if jk.0 as usize >= (i + chunk).min(n) {
+                        jk.0 -= ((i + chunk).min(n) - i) as u32;
+                    } else if jk.0 as usize > i {
+                        jk.0 = i as u32;
+                    }
+                }
                 out.push(q);
                 i += chunk;
             }
@@ -1093,10 +1120,10 @@ impl Scenario for Decode1090Proc {
             rule: "One run = one generated reception history written as a JSONL file and decoded by the real decode1090 binary (its own inlined copy of the deduplication algorithm, including the end-of-file flush); the conservation, content, window and ordering clauses are applied to its standard output. Distinct = distinct hash of the history (frame index, ms stamp, receiver per line). Non-trivial = the history has equal, decreasing or window-straddling stamps or a re-opened frame AND at least one record was printed.",
             components: vec![
                 ("decode1090 binary (main(): JSONL reader, inlined deduplication, end-of-file flush, decode_position, JSON output)", "real (separate process)"),
-                ("input file", "stub (written by the driver before the process starts; no I/O faults injected)"),
+                ("input file", "stub (written by the driver before the process starts; damaged lines injected: non-UTF-8 bytes, non-JSON text, a line cut short, an empty line, JSON of another shape)"),
             ],
-            assumptions: vec!["output timestamps are compared with a tolerance of 10 µs (JSON text round trip)"],
-            fault_kinds: vec!["nonmonotone_arrival", "duplicate_delivery", "eof_with_open_groups"],
+            assumptions: vec!["output timestamps are compared with a tolerance of 10 µs (JSON text round trip)", "a reception on a damaged line is not in the file; every reception on an intact line is"],
+            fault_kinds: vec!["nonmonotone_arrival", "duplicate_delivery", "eof_with_open_groups", "damaged_line"],
             probes: vec!["records_printed", "monotone_history", "eof_with_3_open_groups", "reopened_after_expiry"],
         }
     }
@@ -1114,20 +1141,38 @@ pub fn execute_decode1090(plan: &C10Plan) -> Outcome<C10Plan> {
     };
     let frames: Vec<Vec<u8>> = plan.frames.iter().map(|h| world::unhex(h)).collect();
     let decodable: Vec<bool> = frames.iter().map(|f| Message::from_bytes((f, 0)).is_ok()).collect();
-    let mut text = String::new();
-    for r in &plan.receptions {
+    let mut text: Vec<u8> = Vec::new();
+    let mut ji = 0usize;
+    let push_junk = |text: &mut Vec<u8>, kind: u8| match kind {
+        0 => text.extend_from_slice(b"{\"timestamp\":1.0,\"frame\":\"\xff\xfe\x80 damaged\"}\n"),
+        1 => text.extend_from_slice(b"### recording resumed ###\n"),
+        2 => text.extend_from_slice(b"{\"timestamp\":1767225700.5,\"frame\":\"8d406b902015a678d4d220aa4bda\",\"metad\n"),
+        3 => text.extend_from_slice(b"\n"),
+        _ => text.extend_from_slice(b"{\"ts\":12,\"hex\":\"8d406b902015a678d4d220aa4bda\"}\n"),
+    };
+    for (ri, r) in plan.receptions.iter().enumerate() {
+        while ji < plan.junk.len() && plan.junk[ji].0 as usize <= ri {
+            push_junk(&mut text, plan.junk[ji].1);
+            out.count("damaged_line", 1);
+            ji += 1;
+        }
         let fi = r.frame as usize % frames.len();
-        text.push_str(&format!(
+        text.extend_from_slice(format!(
             "{{\"timestamp\":{},\"frame\":\"{}\",\"metadata\":[{{\"system_timestamp\":{},\"serial\":{},\"name\":\"rx{}\"}}]}}\n",
             ts_f64(r.ts_us),
             plan.frames[fi],
             ts_f64(r.ts_us),
             r.id,
             r.rx
-        ));
+        ).as_bytes());
+    }
+    while ji < plan.junk.len() {
+        push_junk(&mut text, plan.junk[ji].1);
+        out.count("damaged_line", 1);
+        ji += 1;
     }
     let mut h = Fnv::new();
-    h.bytes(text.as_bytes());
+    h.bytes(&text);
     h.u64(plan.window_ms as u64);
     let path = format!("{}/c10-{:016x}-{:?}.jsonl", scratch_dir(), h.0, std::thread::current().id());
     if let Err(e) = std::fs::write(&path, &text) {
@@ -1378,6 +1423,7 @@ fn grid_history(len_max: u8, g: u64) -> C10Plan {
         rx_crash_after: vec![None; 3],
         flush: true,
         sched: SchedSpec::fifo(),
+        junk: Vec::new(),
     }
 }
 
